@@ -44,6 +44,8 @@ type Broker struct {
 	Topic      string
 	OnFetch    func(FetchReq) FetchResp
 	OnOffset   func(conn int, ts int64) (int64, int16) // ts -2 = first, -1 = last
+	// OnOffsetHang != nil and true: this ListOffsets request is never answered (the connection stays open)
+	OnOffsetHang func(conn int) bool
 	OnMetadata func(conn int) (leader int32, partErr int16)
 	OnConn     func(conn int) bool // false: refuse (close immediately)
 
@@ -143,6 +145,10 @@ func (b *Broker) serve(c net.Conn, id int) {
 			_ = r.i32() // partitions
 			_ = r.i32() // partition
 			ts := r.i64()
+			if b.OnOffsetHang != nil && b.OnOffsetHang(id) {
+				io.Copy(io.Discard, c) // swallow further input until the client gives up
+				return
+			}
 			off, e := int64(0), int16(0)
 			if b.OnOffset != nil {
 				off, e = b.OnOffset(id, ts)
